@@ -68,11 +68,14 @@ def corpus_cases():
     out = [{"files": [inc, main], "main": "main.idl", "idirs": []}]
     # every ordering of three member sizes with a tail that makes the packed size a multiple of
     # the largest alignment: each member's offset must be checked, whichever came before it
-    T = {1: "uint8", 2: "uint16", 4: "uint32", 8: "uint64"}
+    T = {1: ["uint8", "int8"], 2: ["uint16", "int16"], 4: ["uint32", "int32", "float32"], 8: ["uint64", "int64", "float64"]}
+    n = 0
     for s1 in (1, 2, 4, 8):
         for s2 in (1, 2, 4, 8):
             for s3 in (1, 2, 4, 8):
-                fields = [(T[s1], 1, "a"), (T[s2], 1, "b"), (T[s3], 1, "c")]
+                n += 1
+                # every primitive of each size takes its turn (the alignment table is per type)
+                fields = [(T[s1][n % len(T[s1])], 1, "a"), (T[s2][(n // 2) % len(T[s2])], 1, "b"), (T[s3][(n // 3) % len(T[s3])], 1, "c")]
                 pad = (-(s1 + s2 + s3)) % max(s1, s2, s3)
                 if pad:
                     fields.append(("uint8", pad, "d"))
